@@ -2,7 +2,8 @@
    implementation.  Executable only.  The abstract cryptography of Model.v is
    instantiated by finite tables computed by the harness with Go's own crypto. *)
 From Coq Require Import List ZArith Bool.
-From GZ Require Export Lib.CheckLib C18.Model C18.Header.
+From GZgen Require Import C18Consts.
+From GZ Require Export Lib.CheckLib C18.Model C18.Header C18.Server.
 Import ListNotations.
 Open Scope Z_scope.
 
@@ -24,13 +25,20 @@ Fixpoint lookup3 (a k i : Z) (t : mactab) : option Z :=
 Definition tab_mac (t : mactab) (a : alg) (k i : Z) : Z :=
   match lookup3 (alg_id a) k i t with Some v => v | None => -1 end.
 
-Record jobs := mkJobs { ob_ran : bool; ob_status : Z; ob_ctx : list (Z * cval); ob_panic : bool }.
+(* [ob_err]: the error the UnauthorizedCallback was called with, as the jwt.ValidationError bit
+   set (-1: no token in request; 0: callback not called; -9: no callback installed).
+   [ob_cbstatus]: the status the callback itself wrote (0: none; then the middleware's 401 stands) *)
+Record jobs := mkJobs { ob_ran : bool; ob_status : Z; ob_ctx : list (Z * cval); ob_panic : bool;
+                        ob_err : Z; ob_cbstatus : Z }.
 
 Definition kv_eqb (a b : Z * cval) : bool := (fst a =? fst b) && cval_eqb (snd a) (snd b).
 
-Definition jres_eqb (r : jresult) (o : jobs) : bool :=
-  Bool.eqb (jran r) (ob_ran o) && (jstatus r =? ob_status o) &&
-  list_eqb kv_eqb (jctx r) (ob_ctx o) && negb (ob_panic o).
+Definition jres_eqb (re : jresult * Z) (o : jobs) : bool :=
+  let '(r, e) := re in
+  Bool.eqb (jran r) (ob_ran o) &&
+  ((if jran r then 200 else if ob_cbstatus o =? 0 then jstatus r else ob_cbstatus o) =? ob_status o) &&
+  list_eqb kv_eqb (jctx r) (ob_ctx o) && negb (ob_panic o) &&
+  ((ob_err o =? -9) || (ob_err o =? e)).
 
 (* the harness supplied a tag for every (HS alg, configured secret, input) the model may ask for *)
 Definition tab_complete (t : mactab) (c : jcfg) (cr : cred) : bool :=
@@ -76,7 +84,10 @@ Definition jwt_prop1 (t : mactab) (c : jcfg) (rq : Z * cred) (o : jobs) : bool :
   negb (ob_panic o) &&
   if ob_ran o then
     jwt_valid_spec t c (fst rq) (snd rq) && list_eqb kv_eqb (ob_ctx o) (nonstd_claims (snd rq))
-  else (ob_status o =? 401) && match ob_ctx o with [] => true | _ => false end.
+  else (ob_status o =? (if ob_cbstatus o =? 0 then 401 else ob_cbstatus o)) &&
+       match ob_ctx o with [] => true | _ => false end &&
+       (* a callback, when installed, is told about every rejection *)
+       negb (ob_err o =? 0).
 
 Fixpoint forall2b {A B} (f : A -> B -> bool) (l1 : list A) (l2 : list B) : bool :=
   match l1, l2 with
@@ -131,17 +142,22 @@ Record cs_obs := mkCsObs
     c_panic : bool;
     c_codec_enc : res;                  (* codec.EcbEncrypt(key, body) *)
     c_codec_dec : res;                  (* codec.EcbDecrypt(key, that) *)
-    c_raw_dec : option res }.           (* codec.EcbDecrypt(key, base64-decoded wire body) *)
+    c_raw_dec : option res;             (* codec.EcbDecrypt(key, base64-decoded wire body) *)
+    c_hdrout : bool;                    (* the response header set by the route handler reached the client *)
+    c_codecx : bool;                    (* EcbEncryptBase64 / EcbDecryptBase64 / NewECB*.CryptBlocks / BlockSize behave like
+                                           EcbEncrypt / EcbDecrypt (compared by the harness) *)
+    c_mwran : bool }.                   (* a server.Use middleware ran (= c_ran when none is installed) *)
 
 Record cs_case := mkCs
   { x_crypt : bool;                                   (* LimitCryptionHandler alone *)
     x_sig : bool;                                     (* the route has the signature verifier (rest.WithSignature) *)
     x_codeobs : bool;                                 (* the callback code was observed *)
     x_jwt : option (jcfg * mactab * Z * cred);        (* the JWT gate in front *)
-    x_strict : bool; x_decs : list Z; x_tol : Z; x_now : Z; x_limit : Z;
+    x_strict : bool; x_decs : list (Z * Z); x_tol : Z; x_now : Z; x_limit : Z;
     x_req : cs_req; x_resp : list Z;
     x_key : Z;                                        (* key of the stand-alone cryption handler *)
-    x_rsa : option cs_secret;                         (* the header's secret under the header's fingerprint *)
+    x_rsa : option cs_secret;                         (* the plaintext of the header's secret ... *)
+    x_rsakeys : list Z;                               (* ... under these private keys (tried by the harness with crypto/rsa) *)
     x_tags : ctab;
     x_digest : Z;
     x_aesok : bool;
@@ -151,11 +167,16 @@ Record cs_case := mkCs
     x_honest_enc : bool;                              (* sent as base64(AES-ECB(pad plain)) under the key of the secret *)
     x_obs : cs_obs }.
 
-Definition x_rsa_dec (c : cs_case) (fp sc : Z) : option cs_secret :=
-  match h_fp (r_hdr (x_req c)), h_secret (r_hdr (x_req c)) with
-  | Some fp', Some sc' => if (fp =? fp') && (sc =? sc') then x_rsa c else None
-  | _, _ => None
+Definition x_rsa_dec (c : cs_case) (kid sc : Z) : option cs_secret :=
+  match h_secret (r_hdr (x_req c)) with
+  | Some sc' => if (sc =? sc') && memz kid (x_rsakeys c) then x_rsa c else None
+  | None => None
   end.
+
+(* the specification's own reading of "the key configured for this fingerprint": the last
+   entry of the group's PrivateKeys with that fingerprint *)
+Definition spec_key (fp : Z) (keys : list (Z * Z)) : option Z :=
+  fold_left (fun acc fk => if fp =? fst fk then Some (snd fk) else acc) keys None.
 
 Definition model_cs (c : cs_case) : hout :=
   let aes := fun _ : Z => x_aesok c in
@@ -163,7 +184,7 @@ Definition model_cs (c : cs_case) : hout :=
   let D := tab_block (x_dtab c) in
   let b64d := fun _ : list Z => x_b64 c in
   if x_crypt c then
-    crypt_handler aes E D enc_b64 b64d (x_limit c) (x_key c) (r_clen (x_req c)) (r_body (x_req c)) (x_resp c)
+    crypt_handler unknown_length_fix aes E D enc_b64 b64d (x_limit c) (x_key c) (r_clen (x_req c)) (r_body (x_req c)) (x_resp c)
   else
     if negb (x_sig c) then
       (* a route with the JWT option only, or a public route *)
@@ -177,16 +198,16 @@ Definition model_cs (c : cs_case) : hout :=
     else
     match x_jwt c with
     | Some (jc, mt, jnow, cr) =>
-      chain_handler (tab_mac mt) (x_rsa_dec c) (tab_cmac (x_tags c)) (fun _ => x_digest c) aes E D enc_b64 b64d
+      chain_handler unknown_length_fix (tab_mac mt) (x_rsa_dec c) (tab_cmac (x_tags c)) (fun _ => x_digest c) aes E D enc_b64 b64d
                     jc jnow cr (x_strict c) (x_decs c) (x_tol c) (x_now c) (x_limit c) (x_req c) (x_resp c)
     | None =>
-      cs_handler (x_rsa_dec c) (tab_cmac (x_tags c)) (fun _ => x_digest c) aes E D enc_b64 b64d
+      cs_handler unknown_length_fix (x_rsa_dec c) (tab_cmac (x_tags c)) (fun _ => x_digest c) aes E D enc_b64 b64d
                  (x_strict c) (x_decs c) (x_tol c) (x_now c) (x_limit c) (x_req c) (x_resp c)
     end.
 
 Definition model_code (c : cs_case) : Z :=
   if x_crypt c || negb (x_sig c) then -1 else
-  match snd (cs_gate (x_rsa_dec c) (tab_cmac (x_tags c)) (fun _ => x_digest c)
+  match snd (cs_gate unknown_length_fix (x_rsa_dec c) (tab_cmac (x_tags c)) (fun _ => x_digest c)
                      (x_strict c) (x_decs c) (x_tol c) (x_now c) (x_req c)) with
   | Some cd => code_z cd
   | None => -1
@@ -218,7 +239,7 @@ Definition model_codec (c : cs_case) : res * res * option res :=
 Definition agrees_cs (c : cs_case) : bool :=
   let m := model_cs c in
   let o := x_obs c in
-  Bool.eqb (o_ran m) (c_ran o) && Bool.eqb (o_panic m) (c_panic o) &&
+  Bool.eqb (o_ran m) (c_ran o) && Bool.eqb (o_panic m) (c_panic o) && Bool.eqb (o_ran m) (c_mwran o) &&
   (o_panic m || ((o_status m =? c_status o) && bytes_eqb (o_seen m) (c_seen o) && resp_match (o_resp m) o)) &&
   (if x_codeobs c then
      match x_jwt c with
@@ -238,7 +259,7 @@ Definition signed_spec (c : cs_case) : bool :=
   let r := x_req c in
   match h_fp (r_hdr r), h_secret (r_hdr r), h_sig (r_hdr r) with
   | Some fp, Some _, Some sg =>
-    memz fp (x_decs c) &&
+    match spec_key fp (x_decs c) with Some kid => memz kid (x_rsakeys c) | None => false end &&
     match x_rsa c with
     | Some sec =>
       match sk_key sec, sk_tsval sec with
@@ -262,7 +283,7 @@ Definition secret_type (c : cs_case) : option Z :=
    stand-alone cryption handler, or a validly signed request of type 1 *)
 Definition must_decrypt (c : cs_case) : bool :=
   x_honest_enc c && x_aesok c &&
-  (* within the configured size limit, length known, and no X-Request-Uri pointing elsewhere *)
+  (* within the configured size limit, and no X-Request-Uri pointing elsewhere *)
   ((x_limit c <=? 0) || (r_clen (x_req c) <=? x_limit c)) &&
   match r_xuri (x_req c) with
   | Some (p, q) => (p =? r_path (x_req c)) && (q =? r_query (x_req c))
@@ -274,9 +295,11 @@ Definition must_decrypt (c : cs_case) : bool :=
 
 Definition prop_cs (c : cs_case) : bool :=
   let o := x_obs c in
-  negb (c_panic o) &&
-  (* gates *)
-  (if c_ran o then
+  negb (c_panic o) && c_codecx o &&
+  (* what the handler puts in the response header goes out, whatever writer the gate wrapped around *)
+  (if c_ran o then c_hdrout o else true) &&
+  (* gates: neither the route handler nor a middleware registered with server.Use runs without the credential *)
+  (if c_ran o || c_mwran o then
      (if x_crypt c then true else if x_sig c && x_strict c then signed_spec c else true) &&
      match x_jwt c with Some (jc, mt, jnow, cr) => jwt_valid_spec mt jc jnow cr | None => true end
    else true) &&
@@ -318,8 +341,154 @@ Definition prop_hdr (raw : list Z) (obs : list (list Z * list Z)) : bool :=
                     | None => true
                     end) fs.
 
+(* ---- token.TokenParser driven directly ------------------------------------------- *)
+
+(* one call: (secret, prevSecret) of this call, clock, credential; observed error code *)
+Definition tp_call := (jcfg * Z * cred)%type.
+
+(* the property on one call, read on the observation: a token is returned (code 0) only for
+   a credential valid under the secrets of THIS call *)
+Definition tp_prop1 (t : mactab) (c : tp_call) (e : Z) : bool :=
+  let '(jc, now, cr) := c in
+  if e =? 0 then jwt_valid_spec t jc now cr else true.
+
+(* ---- a rest.Server with several route groups ---------------------------------------- *)
+
+Fixpoint lookup2 {A} (a b : Z) (t : list ((Z * Z) * A)) : option A :=
+  match t with
+  | [] => None
+  | ((a', b'), v) :: t' => if (a =? a') && (b =? b') then Some v else lookup2 a b t'
+  end.
+
+Fixpoint lookup_bytes {A} (b : list Z) (t : list (list Z * A)) : option A :=
+  match t with
+  | [] => None
+  | (b', v) :: t' => if bytes_eqb b b' then Some v else lookup_bytes b t'
+  end.
+
+Fixpoint lookup_kb (k : Z) (b : list Z) (t : list ((Z * list Z) * list Z)) : option (list Z) :=
+  match t with
+  | [] => None
+  | ((k', b'), v) :: t' => if (k =? k') && bytes_eqb b b' then Some v else lookup_kb k b t'
+  end.
+
+Record srv_tabs := mkTabs
+  { t_mac : mactab;
+    t_rsa : list ((Z * Z) * cs_secret);          (* (private key, ciphertext) -> plaintext, where it decrypts *)
+    t_cmac : ctab;
+    t_sha : list (list Z * Z);                   (* body -> digest id *)
+    t_aes : list Z;                              (* keys aes.NewCipher accepts *)
+    t_e : list ((Z * list Z) * list Z);          (* (key, block) -> AES block *)
+    t_d : list ((Z * list Z) * list Z);
+    t_b64 : list (list Z * list Z) }.            (* wire body -> its base64 decoding, where it decodes *)
+
+Definition tabs_rsa (t : srv_tabs) (kid sc : Z) : option cs_secret := lookup2 kid sc (t_rsa t).
+Definition tabs_sha (t : srv_tabs) (b : list Z) : Z := match lookup_bytes b (t_sha t) with Some d => d | None => -1 end.
+Definition tabs_aes (t : srv_tabs) (k : Z) : bool := memz k (t_aes t).
+Definition tabs_e (t : srv_tabs) (k : Z) (b : list Z) : list Z := match lookup_kb k b (t_e t) with Some v => v | None => [-1] end.
+Definition tabs_d (t : srv_tabs) (k : Z) (b : list Z) : list Z := match lookup_kb k b (t_d t) with Some v => v | None => [-1] end.
+Definition tabs_b64 (t : srv_tabs) (w : list Z) : option (list Z) := lookup_bytes w (t_b64 t).
+
+Record srv_obs := mkSObs
+  { so_ran : bool; so_route : option route; so_status : Z; so_seen : list Z;
+    so_respraw : list Z; so_respdec : option (list Z);
+    so_uerr : Z;                                   (* -9: no unauthorized callback installed *)
+    so_mwran : bool;                               (* the server.Use middleware ran *)
+    so_panic : bool }.
+
+Record srv_case := mkSrv
+  { v_limit : Z;
+    v_keyok : list Z;                              (* key files codec.NewRsaDecrypter can load *)
+    v_groups : list group;
+    v_tabs : srv_tabs;
+    v_bindok : bool;                               (* observed: Start got past bindRoutes *)
+    v_reqs : list (sreq * nat * srv_obs) }.        (* request, index of the group it is aimed at, observation *)
+
+Definition model_srv (c : srv_case) : bool * list sout :=
+  let t := v_tabs c in
+  run_server unknown_length_fix (fun k => memz k (v_keyok c)) (tab_mac (t_mac t)) (tabs_rsa t) (tab_cmac (t_cmac t)) (tabs_sha t)
+             (tabs_aes t) (tabs_e t) (tabs_d t) enc_b64 (tabs_b64 t)
+             (v_limit c) (v_groups c) (map (fun x => fst (fst x)) (v_reqs c)).
+
+Definition resp_match2 (m raw : list Z) (dec : option (list Z)) : bool :=
+  match m with
+  | k :: m' => if k =? b64_marker then opt_eqb bytes_eqb (Some m') dec else bytes_eqb m raw
+  | [] => bytes_eqb [] raw
+  end.
+
+Definition route_opt_eqb := opt_eqb route_eqb.
+
+Definition sout_eqb (m : sout) (o : srv_obs) : bool :=
+  let h := s_out m in
+  Bool.eqb (o_ran h) (so_ran o) && negb (so_panic o) && negb (o_panic h) &&
+  (o_status h =? so_status o) && bytes_eqb (o_seen h) (so_seen o) &&
+  (* the router's own 404 / 405 pages are not part of the model *)
+  ((o_status h =? 404) || (o_status h =? 405) || resp_match2 (o_resp h) (so_respraw o) (so_respdec o)) &&
+  route_opt_eqb (s_route m) (so_route o) &&
+  Bool.eqb (o_ran h) (so_mwran o) &&
+  ((so_uerr o =? -9) || (so_uerr o =? s_uerr m)).
+
+Definition agrees_srv (c : srv_case) : bool :=
+  let '(ok, outs) := model_srv c in
+  Bool.eqb ok (v_bindok c) && forall2b sout_eqb outs (map snd (v_reqs c)).
+
+(* the specification, per GROUP and read on the observation: the signature must verify under
+   the keys configured for the group the route was registered in *)
+Definition signed_spec_srv (t : srv_tabs) (sc : sigcfg) (now : Z) (r : cs_req) : bool :=
+  match h_fp (r_hdr r), h_secret (r_hdr r), h_sig (r_hdr r) with
+  | Some fp, Some sct, Some sg =>
+    match spec_key fp (sg_keys sc) with
+    | Some kid =>
+      match lookup2 kid sct (t_rsa t) with
+      | Some sec =>
+        match sk_key sec, sk_tsval sec, lookup_bytes (r_body r) (t_sha t) with
+        | Some key, Some ts, Some dig =>
+          (now - sg_tol sc <=? ts) && (ts <=? now + sg_tol sc) &&
+          match lookup_c key (sk_tsid sec, r_method r, r_path r, r_query r, dig) (t_cmac t) with
+          | Some tag => sg =? tag
+          | None => false
+          end
+        | _, _, _ => false
+        end
+      | None => false
+      end
+    | None => false
+    end
+  | _, _, _ => false
+  end.
+
+Definition prop_srv1 (c : srv_case) (x : sreq * nat * srv_obs) : bool :=
+  let '(q, gi, o) := x in
+  let t := v_tabs c in
+  negb (so_panic o) &&
+  match nth_error (v_groups c) gi with
+  | None => false
+  | Some g =>
+    let jwt_ok := match g_jwt g with
+                  | Some jc => jwt_valid_spec (t_mac t) jc (q_jnow q) (q_cred q)
+                  | None => true
+                  end in
+    let sig_ok := match g_sig g with
+                  | Some sc => if sg_strict sc && checked (r_method (q_cs q))
+                               then signed_spec_srv t sc (q_now q) (q_cs q) else true
+                  | None => true
+                  end in
+    existsb (route_eqb (q_route q)) (g_routes g) &&
+    (if so_ran o || so_mwran o then
+       (* only the handler registered for this very route, and only with credentials that are
+          valid for ITS OWN group's configuration *)
+       route_opt_eqb (so_route o) (if so_ran o then Some (q_route q) else None) && jwt_ok && sig_ok
+     else
+       (if negb jwt_ok && v_bindok c then so_status o =? 401 else true) &&
+       negb ((so_uerr o =? 0) && negb jwt_ok && v_bindok c))
+  end.
+
+Definition prop_srv (c : srv_case) : bool := forallb (prop_srv1 c) (v_reqs c).
+
 Inductive case :=
 | CJwt (c : jcfg) (t : mactab) (reqs : list (Z * cred)) (obs : list jobs)
+| CTp (rs : bool) (t : mactab) (calls : list tp_call) (obs : list Z)
+| CSrv (c : srv_case)
 | CCs (c : cs_case)
 | CHdr (raw : list Z) (obs : list (list Z * list Z)).
 
@@ -327,7 +496,11 @@ Definition agrees (c : case) : bool :=
   match c with
   | CJwt jc t reqs obs =>
     forallb (fun rq => tab_complete t jc (snd rq)) reqs &&
-    forall2b jres_eqb (run_jwt (tab_mac t) [] jc reqs) obs
+    forall2b jres_eqb (run_jwt_err (tab_mac t) [] jc reqs) obs
+  | CTp rs t calls obs =>
+    forallb (fun cl => tab_complete t (fst (fst cl)) (snd cl)) calls &&
+    list_eqb Z.eqb (run_parser (tab_mac t) rs [] calls) obs
+  | CSrv x => agrees_srv x
   | CCs x => agrees_cs x
   | CHdr raw obs => agrees_hdr raw obs
   end.
@@ -335,18 +508,24 @@ Definition agrees (c : case) : bool :=
 Definition prop_ok (c : case) : bool :=
   match c with
   | CJwt jc t reqs obs => forall2b (jwt_prop1 t jc) reqs obs
+  | CTp _ t calls obs => forall2b (tp_prop1 t) calls obs
+  | CSrv x => prop_srv x
   | CCs x => prop_cs x
   | CHdr raw obs => prop_hdr raw obs
   end.
 
 Inductive mobs :=
-| MJwt (l : list jresult)
+| MJwt (l : list (jresult * Z))
+| MTp (l : list Z)
+| MSrv (r : bool * list sout)
 | MCs (h : hout) (code : Z) (codec : res * res * option res)
 | MHdr (l : list (list Z * list Z)).
 
 Definition model_obs (c : case) : mobs :=
   match c with
-  | CJwt jc t reqs _ => MJwt (run_jwt (tab_mac t) [] jc reqs)
+  | CJwt jc t reqs _ => MJwt (run_jwt_err (tab_mac t) [] jc reqs)
+  | CTp rs t calls _ => MTp (run_parser (tab_mac t) rs [] calls)
+  | CSrv x => MSrv (model_srv x)
   | CCs x => MCs (model_cs x) (model_code x) (model_codec x)
   | CHdr raw _ => MHdr (parse_header raw)
   end.
